@@ -204,6 +204,9 @@ func genHistory(r *gen.Rand) Input {
 	alpha := smallAlphabet
 	if r.Chance(1, 12) {
 		alpha = []string{"a", "b", "c", "\n", "é", "a", "b"}
+	} else if r.Chance(1, 12) {
+		// one code point, two code units, four bytes: tells the three ways of counting apart
+		alpha = []string{"a", "b", "c", "\U0001F600", "a", "b"}
 	}
 	base := randString(r, alpha, 0, 6)
 	subj := func() string {
@@ -312,7 +315,13 @@ function __pushM(out,m){ if(m===null){out.push("null");return} if(m===undefined)
   out.push("M"); out.push(String(m.index)); out.push(String(m.length)); for(var k=0;k<m.length;k++) __pushV(out,m[k]); }
 function __pushA(out,a){ if(a===null){out.push("null");return} if(a===undefined){out.push("undefined");return} if(typeof a!=="object"){out.push("?"+typeof a);return}
   out.push("A"); out.push(String(a.length)); for(var k=0;k<a.length;k++) __pushV(out,a[k]); }
-function __runAll(re,subs){ var out=[]; for(var i=0;i<subs.length;i++){ var s=subs[i]; re.lastIndex=0; var m=re.exec(s); __pushM(out,m); __pushV(out,re.lastIndex); out.push(m&&m.input!==s?"!input":"ok"); } return out; }
+function __runAll(re,subs){ var out=[]; for(var i=0;i<subs.length;i++){ var s=subs[i]; re.lastIndex=0; var m=re.exec(s); __pushM(out,m); __pushV(out,re.lastIndex); out.push(m&&m.input!==s?"!input":"ok"); } out.push(__srcTrip(re,subs)); return out; }
+function __srcTrip(re,subs){ var t,re2; try{ t=String(re); re2=eval(t); }catch(e){ return "src:throws "+e.name+" for "+t; }
+  if(Object.prototype.toString.call(re2)!=="[object RegExp]") return "src:not a RegExp: "+t;
+  if(re2.source!==re.source||re2.global!==re.global||re2.ignoreCase!==re.ignoreCase||re2.multiline!==re.multiline) return "src:changed "+t+" to "+String(re2);
+  var n=subs.length<60?subs.length:60; for(var i=0;i<n;i++){ re.lastIndex=0; re2.lastIndex=0; var a=re.exec(subs[i]), b=re2.exec(subs[i]);
+    if((a===null)!==(b===null)||(a!==null&&(a.index!==b.index||a.length!==b.length||a.join("\u0000")!==b.join("\u0000")))) return "src:"+t+" behaves differently on subject "+i; }
+  re.lastIndex=0; return "src:ok"; }
 var __fnlog=[];
 function __fn(){ __fnlog.push("C"+arguments.length); for(var i=0;i<arguments.length;i++) __pushV(__fnlog,arguments[i]); return "<"+__fnlog.length+">"; }
 `
@@ -644,6 +653,13 @@ func runAll(c *run.Ctx, in Input, subs []string, std string) (results []string, 
 		}
 		results = append(results, m)
 		lis = append(lis, li)
+	}
+	if trip := cur.next(); trip != "src:ok" {
+		// 15.10.4.1: the source property, written between slashes with the flags, reads back as an
+		// expression that behaves identically (this is also what RegExp.prototype.toString returns, 15.10.6.4)
+		c.Fail("mismatch", "RegExp:source-roundtrip", single(in, ""), "eval(String(re)) is a RegExp with the same source, flags and behaviour (15.10.4.1, 15.10.6.4)", trip, "")
+	} else {
+		c.Feature("source:reads-back")
 	}
 	if cur.bad || cur.pos != len(toks) {
 		c.Fail("mismatch", "RegExp:driver", in, "well-formed result stream", fmt.Sprintf("%d tokens for %d subjects", len(toks), len(subs)), "")
